@@ -92,4 +92,9 @@ PROPS = {
         "trusted": ["as C01/C02 per instance", "concurrent delivery on one instance is covered by C04/C15 (serializability), which C14's per-instance histories rely on"],
         "assumptions": ["guard63 (the repaired epoch guard) on every instance; threshold_ok n t (C12_threshold_bounds)"],
     },
+    "C20": {
+        "relation": "Corr.CheckWire.check_wcase (for requests that went through proto.Marshal / proto.Unmarshal into the real Signer handlers: the decoded byte fields satisfy the decoder assumption of Wire.v, the model does not flag a panic, response states with signature presence and the decoded store equal wire_step) - ties C20_no_panic / C20_every_request_answered to the code; panics of any handler (Signer, Lister, AccountManager, WalletManager, receiver from non-peers) are caught by a recovering wrapper and reported with the request",
+        "trusted": ["protobuf-go's decoder (its capacity behaviour is observed on every decoded field and compared with Wire.v's decode: nil when empty, capacity >= 8 otherwise)", "the harness calls the handlers in process after a Marshal/Unmarshal round trip; the gRPC transport, interceptors and HTTP/2 framing are not on the path (C19 drives them)", "panics inside libraries and goroutine-level effects are observed only on the generated requests; resource exhaustion is not exercised (participant counts are capped at 2^22 by the generator)"],
+        "assumptions": ["wf_req: every byte field of the request came out of the decoder", "partial: see Properties/C20.v"],
+    },
 }
